@@ -188,7 +188,19 @@ def _run_shard(args: tuple) -> dict:
 def _one(mod: Any, case: Any, col: Collector, job: str) -> None:
     try:
         res = mod.run_case(case)
-    except Exception:
+    except Exception as e:
+        tb = traceback.extract_tb(e.__traceback__)
+        inner = tb[-1] if tb else None
+        repo = os.path.join(os.environ.get('VERIF_REPO') or '/repo', 'autobean_refactor')
+        if inner is not None and os.path.abspath(inner.filename).startswith(repo) and any(
+                os.path.abspath(f.filename).startswith(os.path.join(ROOT, 'vf', 'obs')) or f.name in ('print_text', 'invariants', 'digest', 'walk')
+                for f in tb):
+            # the oracle's own observation of the document (printing, walking, reading spans) blew up inside the library: the document is
+            # no longer a consistent tree over its store. Reported as a violation of the property under check, with the trace.
+            res = Result().bad(f'document-unobservable:{type(e).__name__}:{os.path.basename(inner.filename)}:{inner.name}',
+                               'observing the document raised inside the library: ' + traceback.format_exc()[-1500:])
+            col.record(case, res, job)
+            return
         if len(col.errors) < 3:
             col.errors.append({'where': 'run_case', 'job': job, 'case': _short(case, 4000), 'trace': traceback.format_exc()})
         return
@@ -514,7 +526,7 @@ def main(argv: Optional[list[str]] = None) -> int:
 
     nviol, nknown, listing = report_buckets(pid, mod, col.buckets, do_min=not args.no_min)
     if nviol:
-        rc = 1 if rc != 2 else 2
+        rc = 1   # a reported violation outranks harness errors met on other cases (those are printed above)
 
     accepted = col.evaluations - col.discards
     required = getattr(mod, 'REQUIRED_CLASSES', ())
